@@ -29,7 +29,22 @@ META = {
     "nshards": {"quick": 8, "thorough": 16},
 }
 
-TOK = {"i0": 0, "e": "", "t": (), "i1": 1, "a": "a"}
+TOK = {"i0": 0, "e": "", "t": (), "i1": 1, "a": "a", "big": 10 ** 6, "tup": (1, 2), "str": "ключ-é"}
+
+
+def fresh(tok):
+    """the value of a token as a NEW object where Python allows it (large ints, non-empty tuples, strings built at
+    run time): keys and values that are equal to the stored ones without being the same object"""
+    v = TOK[tok]
+    if isinstance(v, bool):
+        return v
+    if isinstance(v, int):
+        return int(str(v))
+    if isinstance(v, tuple):
+        return tuple(list(v))
+    if isinstance(v, str):
+        return "".join(list(v))
+    return v
 SMALL = ["i0", "e", "t"]
 ALL = list(TOK)
 OPS2 = ["insert_left", "insert_right", "setitem"]
@@ -114,17 +129,17 @@ def real_apply(bm, op):
     name = op[0]
     try:
         if name == "insert_left":
-            bm.insert_left(TOK[op[1]], TOK[op[2]])
+            bm.insert_left(fresh(op[1]), fresh(op[2]))
         elif name == "insert_right":
-            bm.insert_right(TOK[op[1]], TOK[op[2]])
+            bm.insert_right(fresh(op[1]), fresh(op[2]))
         elif name == "setitem":
-            bm[TOK[op[1]]] = TOK[op[2]]
+            bm[fresh(op[1])] = fresh(op[2])
         elif name == "delete_left":
-            bm.delete_left(TOK[op[1]])
+            bm.delete_left(fresh(op[1]))
         elif name == "delete_right":
-            bm.delete_right(TOK[op[1]])
+            bm.delete_right(fresh(op[1]))
         elif name == "delitem":
-            del bm[TOK[op[1]]]
+            del bm[fresh(op[1])]
     except KeyError:
         return "KeyError"
     return "ok"
